@@ -11,5 +11,8 @@ echo "fix commits in agent worktree:"
 git -C /tmp/ag/$id/repo log --reverse --format='%h %s' $base..HEAD
 for c in $(git -C /tmp/ag/$id/repo log --reverse --format='%h' $base..HEAD); do
   git -C /repo cherry-pick $c 2>&1 | tail -1 || { echo "CHERRY-PICK CONFLICT on $c"; exit 1; }
+  new=$(git -C /repo log --format=%h -1)
+  # the commit gets a new hash in /repo: rewrite references to it in /verif's text files
+  grep -rl "$c" . --exclude-dir=.git --exclude-dir=.lake --exclude-dir=.work 2>/dev/null | xargs -r sed -i "s/$c/$new/g"
 done
 (cd /repo && go build ./... ) && echo "repo builds"
